@@ -310,3 +310,95 @@ def run_shard(args):
 def ensure_scratch():
     os.makedirs(paths.SCRATCH, exist_ok=True)
     return paths.SCRATCH
+
+
+# ---------------------------------------------------------------- concrete values through the default serializers of the disk caches
+
+import collections
+ZooPoint = collections.namedtuple('ZooPoint', ['row', 'col'])
+
+
+def _zoo():
+    import numpy as np
+    from collections import OrderedDict
+    P = ZooPoint
+    return {
+        'arr_f': np.arange(6, dtype='float32').reshape(2, 3), 'arr_i8': np.arange(4, dtype='int8'), 'arr_u16': np.arange(3, dtype='uint16'),
+        'arr_bool': np.array([True, False, True]), 'arr_0d': np.array(5), 'arr_empty': np.zeros((0, 2)), 'scalar_i64': np.int64(7),
+        'scalar_f32': np.float32(1.5), 'dict_str': {'a': np.ones(2), 'b': np.zeros(3)},
+        'dict_tuple_keys': {(0, 1): np.ones(2), (2, 3): np.zeros(1)}, 'dict_npint_keys': {np.int64(1): np.ones(1), np.int64(2): np.zeros(2)},
+        'dict_int_keys': {1: 'x', 2: [1, 2]}, 'dict_mixed_keys': {'a': 1, 2: 'b'}, 'dict_bytes_keys': {b'k': np.ones(1)},
+        'nested': ({'a': (1, 2)}, [np.int32(3), None]), 'tuple_of_arrays': (np.ones(2), np.zeros(2, dtype=int)), 'list_mixed': [1, 'a', None, 2.5],
+        'none': None, 'bytes': b'\\x00\\x01', 'set': {1, 2, 3}, 'frozenset': frozenset(['a']), 'ordered': OrderedDict([('z', 1), ('a', 2)]),
+        'namedtuple': P(1, 2), 'complex': 1 + 2j, 'big_int': 2 ** 70, 'str_unicode': 'h\\u00e9llo', 'empty_dict': {}, 'empty_tuple': (),
+        'bool': True, 'float_nan_free': 0.1 + 0.2,
+    }
+
+
+def _same(a, b):
+    import numpy as np
+    if type(a) is not type(b):
+        return False
+    if isinstance(a, np.ndarray):
+        return a.dtype == b.dtype and a.shape == b.shape and bool(np.array_equal(a, b))
+    if isinstance(a, dict):
+        return list(map(repr, a)) == list(map(repr, b)) and all(_same(a[k], b[k]) for k in a) if not isinstance(a, (set, frozenset)) else a == b
+    if isinstance(a, (list, tuple)):
+        return len(a) == len(b) and all(_same(x, y) for x, y in zip(a, b))
+    return a == b
+
+
+def _zoo_child(arg):
+    kind, root = arg
+    import sys
+    paths.use_repo()
+    from connectome import Transform, CacheToDisk, CacheColumns, Source, meta
+    zoo = _zoo()
+    names = sorted(zoo)
+    calls = []
+
+    class Z(Source):
+        @meta
+        def ids():
+            return tuple(names)
+
+        def value(i):
+            calls.append(i)
+            return _zoo()[i]
+    out = {}
+    for rebuilt in (False, True):
+        try:
+            if kind == 'disk':
+                p = Z() >> CacheToDisk.simple('value', root=root)
+            else:
+                p = Z() >> CacheColumns.simple('value', root=root, shard_size=4) if hasattr(CacheColumns, 'simple') else None
+            if p is None:
+                return {}
+        except Exception as e:
+            return {'build': type(e).__name__ + ': ' + str(e)[:100]}
+        for n in names:
+            for rep in range(2):
+                tag = f'{n}/{"rebuilt" if rebuilt else "first"}/{rep}'
+                try:
+                    got = p.value(n)
+                    if not _same(got, zoo[n]):
+                        out[tag] = f'returned {got!r:.80} instead of {zoo[n]!r:.80}'
+                except Exception as e:
+                    out[tag] = 'raised ' + type(e).__name__ + ': ' + str(e)[:100]
+    return out
+
+
+def run_value_zoo(scratch):
+    """C04 with CONCRETE values: a pure field returning numpy arrays of several dtypes, dicts with tuple / numpy / bytes / mixed keys,
+    nested containers, sets, named tuples, None ... behind `CacheToDisk.simple` (default serializers): the first call, the second
+    call and a rebuilt pipeline on the same storage return the cache-free value (same type, same contents), never an error of the
+    cache's own"""
+    from .par import with_deadline
+    root = tempfile.mkdtemp(prefix='zoo-', dir=scratch)
+    status, out = with_deadline(_zoo_child, ('disk', root), timeout=120)
+    shutil.rmtree(root, ignore_errors=True)
+    if status != 'ok':
+        return [{'msg': f'the value zoo behind CacheToDisk.simple did not finish: {status}'}], 0
+    if 'build' in out:
+        return [{'msg': 'building Source >> CacheToDisk.simple raised ' + out['build']}], 0
+    return [{'case': k, 'msg': f'CacheToDisk.simple over a pure field, value {k}: {v}'} for k, v in sorted(out.items())], 2 * 2 * len(_zoo())
